@@ -336,6 +336,17 @@ func checkMain(args []string) int {
 			trusted = append(trusted, "assumed contract: "+k+" ("+c.File+")")
 		}
 	}
+	for _, k := range v.db.sortedFuncKeys() {
+		c := v.db.Funcs[k]
+		for _, a := range c.Assumed {
+			trusted = append(trusted, "assumed clause in the contract of "+k+": "+a.Src)
+		}
+	}
+	for pkg, axs := range v.db.Axioms {
+		for _, a := range axs {
+			trusted = append(trusted, "definitional axiom ("+pkg+"): "+a.Src)
+		}
+	}
 	for k, d := range modelDocs {
 		trusted = append(trusted, "model: "+k+": "+d)
 	}
